@@ -40,6 +40,11 @@ class Anchors:
 
         elif isinstance(dom, CommentedSeq):
             for ele in dom:
+                # An anchored Hash or Array which is itself an element
+                if (isinstance(ele, (CommentedMap, CommentedSeq))
+                        and ele.anchor.value is not None):
+                    anchors[ele.anchor.value] = ele
+
                 Anchors.scan_for_anchors(ele, anchors)
 
         elif hasattr(dom, "anchor") and dom.anchor.value is not None:
